@@ -52,6 +52,8 @@ pub struct Sim {
     pub touched: BTreeSet<String>,
     pub tree_sigs: Fnv,
     pub any_fault: bool,
+    /// digest of everything observed so far, recorded after every step (twin comparison)
+    pub step_digs: Vec<u64>,
 }
 
 fn lp(ns: &[u8]) -> Vec<u8> {
@@ -187,7 +189,13 @@ impl Sim {
             touched: BTreeSet::new(),
             tree_sigs: Fnv::new(),
             any_fault: false,
+            step_digs: vec![],
         }
+    }
+
+    /// Function-pointer contracts find their world through a thread-local: point it at this instance.
+    pub fn activate(&self) {
+        set_current_world(Some(self.world.clone()));
     }
 
     fn v(&mut self, props: &[&str], class: &str, detail: String) {
@@ -245,6 +253,18 @@ impl Sim {
         for (p, c, d) in flags {
             let cls = c.split('.').nth(1).unwrap_or("flag").to_string();
             self.v(&[p.as_str()], &cls, format!("{}: {}", what, d));
+        }
+        if let RealOut::Ok(rs) = &real {
+            for r in rs {
+                for e in &r.events {
+                    self.dig.write_str(&e.ty);
+                    for at in &e.attributes {
+                        self.dig.write_str(&at.key);
+                        self.dig.write_str(&at.value);
+                    }
+                }
+                self.dig.write(r.data.as_ref().map(|d| d.as_slice()).unwrap_or(b"\x00nodata"));
+            }
         }
         let real_ok = match &real {
             RealOut::Ok(_) => true,
@@ -579,6 +599,14 @@ impl Sim {
     // ------------------------------------------------------------------ operations
 
     pub fn step(&mut self, op: &Op) -> bool {
+        self.activate();
+        let r = self.step_inner(op);
+        self.dig.write_u64(self.app.storage().digest());
+        self.step_digs.push(self.dig.finish());
+        r
+    }
+
+    fn step_inner(&mut self, op: &Op) -> bool {
         match op {
             Op::StoreCode { kind, creator, with_checksum } => self.op_store(*kind, *creator, None, *with_checksum),
             Op::StoreCodeWithId { kind, creator, id, with_checksum } => self.op_store(*kind, *creator, Some(*id), *with_checksum),
@@ -866,6 +894,8 @@ impl Sim {
                 self.model.names.codes.push(got);
                 self.world.0.borrow_mut().names.codes.push(got);
                 self.dig.write_u64(got);
+                let cs = self.model.codes.get(&got).map(|c| c.checksum.clone()).unwrap_or_default();
+                self.dig.write_str(&cs);
             }
             (RealOut::Err(_), Err(())) => {
                 self.stats.fault("store_code_rejected");
